@@ -121,6 +121,9 @@ func (p *protocolAdaptor) serverGetProtocolInitializer() (protocolInitializer, e
 // handleShareMemoryByFilePath
 func handleShareMemoryByFilePath(s *Session, hdr header) error {
 	s.logger.infof("handleShareMemoryMetadata head:%+v", hdr)
+	if hdr.Length() < headerSize {
+		return fmt.Errorf("handleShareMemoryByFilePath invalid event length:%d", hdr.Length())
+	}
 	body := make([]byte, hdr.Length()-headerSize)
 	err := blockReadFull(s.connFd, body)
 	if err != nil {
@@ -130,7 +133,10 @@ func handleShareMemoryByFilePath(s *Session, hdr header) error {
 		}
 		return err
 	}
-	bufferPath, queuePath := s.extractShmMetadata(body)
+	bufferPath, queuePath, err := s.extractShmMetadata(body)
+	if err != nil {
+		return err
+	}
 	qm, err := mappingQueueManager(queuePath)
 	if err != nil {
 		return fmt.Errorf("handleShareMemoryByFilePath mappingQueueManager failed,queuePathLen:%d path:%s err=%s",
@@ -192,12 +198,18 @@ func handleShareMemoryByMemFd(s *Session, h header) error {
 	s.logger.infof("recv memfd, header:%s", h.String())
 
 	//1.recv shm metadata
+	if h.Length() < headerSize {
+		return fmt.Errorf("handleShareMemoryByMemFd invalid event length:%d", h.Length())
+	}
 	body := make([]byte, h.Length()-headerSize)
 	err := blockReadFull(s.connFd, body)
 	if err != nil {
 		return errors.New("read shm metadata failed,reason:" + err.Error())
 	}
-	bufferPath, queuePath := s.extractShmMetadata(body)
+	bufferPath, queuePath, err := s.extractShmMetadata(body)
+	if err != nil {
+		return err
+	}
 
 	//2.send AckReadyRecvFD
 	ack := header(make([]byte, headerSize))
